@@ -57,15 +57,15 @@ Proof. intros s n W Hc Hl Hn. pose proof (wf_x s W). pose proof (wf_y s W). repe
 
 (* ---- the arithmetic half as theorems: Safe.v lists, function by function, the condition under which no *checked* u32 / i32
    operation of src/screen.rs fails on the executed path ([step_ok s o], [init_ok c l]; `wrun_ok` is the same along a history
-   through decoder and recogniser). These hold for every history that C01 quantifies over, for geometries up to
-   BND = 2^31 - 10000: Screen::new and every operation performed are free of overflow, underflow and `as i32 - 1` panics.
+   through decoder and recogniser). These hold for every history that C01 quantifies over, for any number of columns and up to
+   BND = 2^31 - 10000 lines: Screen::new and every operation performed are free of overflow, underflow and `as i32 - 1` panics.
    wid is the display-width oracle (unicode-width returns 0, 1 or 2 — the only assumption about it). *)
 Theorem C01_no_checked_operation_fails : forall wid is_comb nfc, (forall c, wid c <= 2) -> forall cols lns (os : list wop),
-  1 <= cols <= BND -> 1 <= lns <= BND -> Forall wop_small os ->
+  1 <= cols -> 1 <= lns <= BND -> Forall wop_small os ->
   init_ok cols lns = true /\ wrun_ok wid is_comb nfc (winit cols lns) os = true.
 Proof. exact world_safe. Qed.
 Theorem C01_api_no_checked_operation_fails : forall wid is_comb nfc, (forall c, wid c <= 2) -> forall c l (os : list op),
-  1 <= c <= BND -> 1 <= l <= BND -> Forall op_small os ->
+  1 <= c -> 1 <= l <= BND -> Forall op_small os ->
   init_ok c l = true /\ all_ok wid is_comb nfc (init c l) os = true.
 Proof. exact api_safe. Qed.
 (* one step, from any well-formed state (not only reachable ones) *)
@@ -83,12 +83,12 @@ Proof. exact pstep_small. Qed.
    exactly where the Rust text panics (checked against the real crate on every run, see DESIGN.md) *)
 Example C01_premises_hold_somewhere : WF (init 80 24) /\ SCm (init 80 24) /\ Bn (init 80 24).
 Proof.
-  assert (H1 : 1 <= 80 <= BND) by (unfold BND; Lia.lia). assert (H2 : 1 <= 24 <= BND) by (unfold BND; Lia.lia).
+  assert (H1 : 1 <= 80) by Lia.lia. assert (H2 : 1 <= 24 <= BND) by (unfold BND; Lia.lia).
   destruct (SInv_init 80 24 H1 H2) as [a b c]. split; [exact a|split; [exact b|exact c]].
 Qed.
 Example C01_conditions_fail_outside_the_contract :
   step_ok (fun _ => 1) (fun _ => false) (fun x => x) (init 80 24) (OCup (Some 2147483648) None) = false /\
-  step_ok (fun _ => 1) (fun _ => false) (fun x => x) (step (fun _ => 1) (fun _ => false) (fun x => x) (init 80 24) (OCha (Some 5))) (OCuf (Some 4294967295)) = false /\
+  step_ok (fun _ => 1) (fun _ => false) (fun x => x) (step (fun _ => 1) (fun _ => false) (fun x => x) (init 80 24) (OCup (Some 5) None)) (OCud (Some 4294967295)) = false /\
   step_ok (fun _ => 1) (fun _ => false) (fun x => x) (init 80 24) (OResize (Some 0) None) = false /\
   init_ok 0 24 = false /\ init_ok 80 0 = false.
 Proof. vm_compute. repeat split. Qed.
